@@ -31,6 +31,15 @@ CASES = [
     ("stack RC", "lambda anp, x, y: anp.stack([x, y])", [((2,), "R"), ((2,), "C")], (0, 1)),
     ("array RC", "lambda anp, x, y: anp.array([x, y])", [((2,), "R"), ((2,), "C")], (0, 1)),
     ("where RC", "lambda anp, x, y: anp.where(__import__('numpy').array([True, False, True]), x, y)", [((3,), "R"), ((3,), "C")], (0, 1)),
+    ("power complex base real exponent", "lambda anp, x, y: anp.power(x, y)", [((3,), "C"), ((3,), "R")], (0, 1)),
+    ("power complex base complex exponent", "lambda anp, x, y: x ** y", [((2,), "C"), ((2,), "C")], (0, 1)),
+    ("power complex base scalar exponent", "lambda anp, x, y: x ** y", [((2, 2), "C"), ((), "R")], (0, 1)),
+    ("power real base complex exponent", "lambda anp, x, y: anp.power(x, y)", [((3,), "P"), ((3,), "C")], (0, 1)),
+    ("imag(power)", "lambda anp, x, y: anp.imag(x ** y)", [((2,), "C"), ((2,), "R")], (0, 1)),
+    ("inner 2-D x 3-D", "lambda anp, x, y: anp.inner(x, y)", [((2, 3), "R"), ((2, 4, 3), "R")], (0, 1)),
+    ("inner 3-D x 3-D", "lambda anp, x, y: anp.inner(x, y)", [((2, 2, 3), "R"), ((4, 2, 3), "R")], (0, 1)),
+    ("inner 1-D x 3-D equal batch", "lambda anp, x, y: anp.inner(x, y)", [((3,), "R"), ((2, 2, 3), "R")], (0, 1)),
+    ("inner 3-D x 1-D", "lambda anp, x, y: anp.inner(x, y)", [((2, 2, 3), "C"), ((3,), "R")], (0, 1)),
     ("dot CR", "lambda anp, x, y: anp.dot(x, y)", [((2, 3), "C"), ((3, 2), "R")], (0, 1)),
     ("dot RC 2-D", "lambda anp, x, y: anp.dot(x, y)", [((2, 3), "R"), ((3, 2), "C")], (0, 1)),
     ("dot RC 1-D", "lambda anp, x, y: anp.dot(x, y)", [((3,), "R"), ((3,), "C")], (0, 1)),
